@@ -613,6 +613,14 @@ pub fn cases(tier: Tier) -> Vec<Case> {
                     out.push(Case { dim: 2, verts: verts.clone(), force_closed: fc, scale, tol, derived: "root".into() });
                 }
             }
+            // microns and hundreds of kilometres, with the curve tolerance in proportion
+            if s.len() <= 3 {
+                for scale in [1e-6, 1e5] {
+                    for tol in [0.0, 1e-9 * scale] {
+                        out.push(Case { dim: 2, verts: verts.clone(), force_closed: fc, scale, tol, derived: "root".into() });
+                    }
+                }
+            }
             if s.len() <= 4 {
                 for d in ["reversed", "transformed", "portion", "resampled", "simplified"] {
                     out.push(Case { dim: 2, verts: verts.clone(), force_closed: fc, scale: 1.0, tol: 1e-9, derived: d.into() });
@@ -627,6 +635,11 @@ pub fn cases(tier: Tier) -> Vec<Case> {
         for scale in menu {
             for tol in [1e-9, 1.0 * scale, 1.5 * scale] {
                 out.push(Case { dim: 3, verts: verts.clone(), force_closed: false, scale: *scale, tol, derived: "root".into() });
+            }
+        }
+        if s.len() <= 3 {
+            for scale in [1e-6, 1e5] {
+                out.push(Case { dim: 3, verts: verts.clone(), force_closed: false, scale, tol: 1e-9 * scale, derived: "root".into() });
             }
         }
         if s.len() <= 3 {
